@@ -566,6 +566,24 @@ pub fn gen_project(rng: &mut Rng, knobs: &ProjectKnobs) -> Project {
         });
     }
     if !input_is_file && rng.chance(1, 8) {
+        // sources whose file names start with a dot are sources like any other
+        for (dir, name) in [("", ".dotfile.lua"), ("sub", ".defaults.luau")] {
+            let path = join(&join(&input_dir, dir), name);
+            if !sources.iter().any(|s| s.path == path) && rng.chance(2, 3) {
+                sources.push(SourceFile {
+                    path,
+                    body_index: rng.below(corpus::BODIES.len()),
+                    version: 0,
+                    requires: Vec::new(),
+                    use_alias: false,
+                    bare: false,
+                    via_source: false,
+                    marker_of: None,
+                });
+            }
+        }
+    }
+    if !input_is_file && rng.chance(1, 8) {
         // two sources whose paths differ only by letter case (the file systems used here
         // are case sensitive): both are sources in their own right
         let first = sources[0].path.clone();
@@ -596,6 +614,11 @@ pub fn gen_project(rng: &mut Rng, knobs: &ProjectKnobs) -> Project {
         None
     };
     let luau = bundle.as_deref() == Some("luau");
+    if sources.len() >= 2 && rng.chance(1, 12) {
+        // two files writing the same numbers in different spellings
+        sources[0].body_index = 42;
+        sources[1].body_index = 43;
+    }
     if bundle.is_some() && rng.chance(1, 8) {
         // a type-heavy bundle: several inlined modules export the same type names
         for s in sources.iter_mut() {
